@@ -2,6 +2,8 @@ package larking
 
 import (
 	"context"
+	"errors"
+	"io"
 	"net"
 
 	"github.com/gobwas/ws"
@@ -89,6 +91,10 @@ func (s *streamWS) RecvMsg(m interface{}) error {
 
 		b, _, err := wsutil.ReadClientData(s.conn)
 		if err != nil {
+			var closed wsutil.ClosedError
+			if errors.As(err, &closed) && (closed.Code == ws.StatusNormalClosure || closed.Code == ws.StatusNoStatusRcvd) {
+				return io.EOF // a normal closure is the clean end of the stream
+			}
 			return err
 		}
 
